@@ -1,7 +1,7 @@
 (* Properties/C05.v — C05: WAL reopen after a crash returns exactly a durable prefix.
    Only property theorems (closed by [exact]) and non-vacuity examples. The model is coq/Wal/Model.v
    (byte exact; tied to /repo's wal package by the correspondence check on every run). *)
-From ZV Require Import Common.Bytes Wal.Consts Wal.Crc Wal.Proto Wal.Model Wal.Proofs.
+From ZV Require Import Common.Bytes Wal.Consts Wal.Crc Wal.Proto Wal.Model Wal.Spec Wal.Proofs.
 Open Scope N_scope.
 
 (* ---------- CRC-32C ---------- *)
@@ -119,6 +119,46 @@ Theorem C05_visible_characterised : forall es e,
   In e (visible es) <-> exists a b, es = a ++ e :: b /\ forall y, In y b -> e_index e < e_index y.
 Proof. exact visible_spec. Qed.
 Print Assumptions C05_visible_characterised.
+
+(* ---------- the full statement and why only parts of it are theorems ----------
+   Spec.C05_full: for every history, every crash image (cut + zero fill or short file at any offset behind
+   the last completed fdatasync, zeroed sectors behind it, any single bit flip) reopening fails or returns
+   exactly effect(prefix) with the synced records inside the prefix. It is FALSE of the faithful model,
+   hence of the code (both witnesses are replayed on /repo by corpus/C05):
+     - a single bit flip in a record's Type byte is invisible to the CRC (covers Data only);
+     - a zeroed sector whose content is a multiple of the CRC-32C polynomial leaves the CRC unchanged.
+   What is proved instead: the theorems above (…_is_prefix under the explicit no_crc_collision_cut). *)
+Definition C05_full : Prop := Spec.C05_full.
+
+Theorem C05_full_refuted_bitflip :
+  exists opt seg meta ops o files',
+    let w0 := w_run opt seg meta ops in
+    let w := w_step w0 o in
+    crash_image w0 w false files' /\
+    match final_result (reopen files' (Some zero_snap)) with
+    | RAErr _ => False
+    | RAOk _ st ents _ _ =>
+        forall k, effect zero_snap (firstn k (lrecs (ops ++ [o]))) <> Some (st, ents)
+    end.
+Proof. exact ProofsRefute.C05_full_refuted_bitflip. Qed.
+Print Assumptions C05_full_refuted_bitflip.
+
+Theorem C05_full_refuted_torn_sector :
+  exists opt seg meta ops o files',
+    let w0 := w_run opt seg meta ops in
+    let w := w_step w0 o in
+    crash_image w0 w true files' /\
+    match final_result (reopen files' (Some zero_snap)) with
+    | RAErr _ => False
+    | RAOk _ st ents _ _ =>
+        forall k, effect zero_snap (firstn k (lrecs (ops ++ [o]))) <> Some (st, ents)
+    end.
+Proof. exact ProofsRefute.C05_full_refuted_torn_sector. Qed.
+Print Assumptions C05_full_refuted_torn_sector.
+
+Theorem C05_full_refuted : ~ C05_full.
+Proof. exact C05_full_is_false. Qed.
+Print Assumptions C05_full_refuted.
 
 (* ---------- non-vacuity ---------- *)
 (* CRC-32C("123456789") = 0xE3069283, the standard check value *)
